@@ -230,7 +230,7 @@ macro "step_cases " h:ident : tactic => `(tactic| (cases $h:ident; step_rest))
 macro "norm_state" : tactic => `(tactic| (
   simp only [withPc, setTh, upd_apply, me, curF, Option.getD, ↓reduceIte, if_true, if_false,
     Thread.ite_pc, Thread.ite_wr, Thread.ite_sv, Thread.ite_linked, Thread.ite_i, Thread.ite_cur,
-    Thread.ite_blockOn, Thread.ite_tgt, Thread.ite_ws, Fut.ite_phase, Fut.ite_busy, Fut.ite_wr,
+    Thread.ite_blockOn, Thread.ite_tgt, Thread.ite_ws, Fut.ite_phase, Fut.ite_busy, Fut.ite_wr, Fut.ite_bo,
     Node.ite_woken, Node.ite_waiter, Node.ite_isWriter, Node.ite_linked,
     WaitList.setLocked_locked, WaitList.setLocked_queue, WaitList.setLocked_writers, WaitList.setLocked_len,
     WaitList.setLocked_node, WaitList.putNode_locked, WaitList.putNode_queue, WaitList.putNode_writers,
@@ -247,7 +247,7 @@ macro "norm_state" : tactic => `(tactic| (
 macro "norm_goal" : tactic => `(tactic| (
   simp only [withPc, setTh, upd_apply, me, curF, Option.getD, ↓reduceIte, if_true, if_false,
     Thread.ite_pc, Thread.ite_wr, Thread.ite_sv, Thread.ite_linked, Thread.ite_i, Thread.ite_cur,
-    Thread.ite_blockOn, Thread.ite_tgt, Thread.ite_ws, Fut.ite_phase, Fut.ite_busy, Fut.ite_wr,
+    Thread.ite_blockOn, Thread.ite_tgt, Thread.ite_ws, Fut.ite_phase, Fut.ite_busy, Fut.ite_wr, Fut.ite_bo,
     Node.ite_woken, Node.ite_waiter, Node.ite_isWriter, Node.ite_linked,
     WaitList.setLocked_locked, WaitList.setLocked_queue, WaitList.setLocked_writers, WaitList.setLocked_len,
     WaitList.setLocked_node, WaitList.putNode_locked, WaitList.putNode_queue, WaitList.putNode_writers,
